@@ -54,7 +54,7 @@ pub fn work(seed: u64, n_items: usize) -> Vec<(String, String)> {
     let mut k = 0usize;
     while out.len() < n_items {
         let mut rr = r.fork();
-        match k % 7 {
+        match k % 8 {
             0 => {
                 let loco = if rr.chance(0.5) { rand_conv_loco(&mut rr) } else { rand_bel_loco(&mut rr) };
                 let mut s = loco_sim_from_trace(&mut rr, loco, 8, Some(1));
@@ -147,6 +147,36 @@ pub fn work(seed: u64, n_items: usize) -> Vec<(String, String)> {
                     Err(p) => format!("build-panic:{}", p),
                 };
                 out.push((format!("speed_limit_train_sim/{}", k), d));
+            }
+            7 => {
+                // generated networks (lines with sidings, junctions with two western / eastern branches, so
+                // that a train has SEVERAL reachable origin and destination links), 1..8 trains: the
+                // estimated-time network of every train and the dispatch result
+                let sc = crate::disp::gen_disp_scenario(&mut rr, k / 8);
+                match crate::dsp::build_network(&sc.sp) {
+                    Ok(net) => {
+                        let sims: Vec<SpeedLimitTrainSim> = sc.trains.iter().map(crate::dsp::build_train).collect();
+                        let mut ets = vec![]; let mut parts = vec![];
+                        for s in sims.iter() {
+                            match catch(AssertUnwindSafe(|| make_est_times(s.clone(), &net))) {
+                                Ok(Ok((e, c))) => { parts.push(format!("{}|{}", dig("ok", &e), digest(&to_node(&c)))); ets.push(e); }
+                                Ok(Err(e)) => parts.push(format!("err:{}", format!("{:#}", e).lines().next().unwrap_or(""))),
+                                Err(p) => parts.push(format!("panic:{}", p)),
+                            }
+                        }
+                        let multi = sc.trains.iter().any(|t| t.origs.len() > 1) as u8 + 2 * sc.trains.iter().any(|t| t.dests.len() > 1) as u8;
+                        out.push((format!("gen_est_times[multi_orig_dest:{}]/{}", multi, k), parts.join("||")));
+                        if ets.len() == sims.len() && !sims.is_empty() {
+                            let d = match catch(AssertUnwindSafe(|| run_dispatch(&net, &sims, ets, false, false))) {
+                                Ok(Ok(plan)) => dig("ok", &plan),
+                                Ok(Err(e)) => format!("err:{}", format!("{:#}", e).lines().next().unwrap_or("")),
+                                Err(p) => format!("panic:{}", p),
+                            };
+                            out.push((format!("gen_dispatch[trains:{}]/{}", sims.len(), k), d));
+                        }
+                    }
+                    Err(e) => out.push((format!("gen_network_rejected/{}", k), format!("{:#}", e).lines().next().unwrap_or("").to_string())),
+                }
             }
             _ => {
                 // estimated-time networks and a dispatch on the corridor (two opposing trains)
